@@ -106,7 +106,7 @@ def C02(ctx):
     more = [c for c in more if verdict(c) == 'yes']
     if ctx.quick:
         more = ctx.sample(more, 500)
-    more += ctx.export('FamilyX(p, {"multi-name-var-sets", "arg-returned-through-bind", "arg-returned-directly", "two-files-ok", "star-foreign-tag-ok"})')
+    more += ctx.export('FamilyX(p, {"multi-name-var-sets", "arg-returned-through-bind", "arg-returned-directly", "two-files-ok", "star-foreign-tag-ok", "two-unnamed-values"})')
     ctx.design_inject(cases + more, maxcalls=2, label='families G R B S M X ')
     ctx.run(only_success(more), nontrivial=nt, runtime=True, switches=W_ONLY)
     if not ctx.quick:
@@ -322,6 +322,7 @@ def C14(ctx):
                      'non-trivial = a naming with at least one non-default name; judge: builds, and the trace under every fault schedule is accepted by WireInjectTrace (all switches) against the SAME wiring as the base naming')
     cases = ctx.export('FamilyN(p)', extends='WireNames', pre_sample=350 if ctx.quick else 5000)
     ctx.run(cases, nontrivial=lambda c: c['key'] != 'N/', runtime=True, switches=ALL)
+    ctx.run(ctx.export('FamilyX(p, {"two-unnamed-values", "two-files-ok", "multi-name-var-sets"})'), runtime=True, switches=ALL)
 
 
 def C15(ctx):
